@@ -561,3 +561,30 @@ Lemma daily_noon : forall d r x dl,
    parse_obs {| o_date := Some d; o_noon := JAbsent; o_daily := JGood r |} = Ok (Some (d, x))) /\
   parse_obs {| o_date := Some d; o_noon := JGood r; o_daily := dl |} = Ok (Some (d, r)).
 Proof. intros d r x dl. split; [apply parse_obs_daily | apply parse_obs_noon]. Qed.
+
+(* ---- observations as the Bank of Canada serves them: one series per year ---- *)
+(* raw observation: date, series (true = FXCADUSD daily), published value *)
+Definition raw_obs : Type := (Z * bool * Qc)%type.
+Definition obs_of_raw (x : raw_obs) : obs :=
+  let '(d, daily, v) := x in
+  if daily then {| o_date := Some d; o_noon := JAbsent; o_daily := JGood v |}
+  else {| o_date := Some d; o_noon := JGood v; o_daily := JAbsent |}.
+(* the USD/CAD rate it stands for *)
+Definition rate_of_raw (x : raw_obs) : res drate :=
+  let '(d, daily, v) := x in
+  if daily then r <- a_div dec 1%Qc v ;; Ok (d, r) else Ok (d, v).
+Fixpoint rates_of_raw (l : list raw_obs) : res (list drate) :=
+  match l with
+  | [] => Ok []
+  | x :: t => r <- rate_of_raw x ;; rs <- rates_of_raw t ;; Ok (r :: rs)
+  end.
+
+Lemma parse_all_raw l : parse_all (map obs_of_raw l) = rates_of_raw l.
+Proof.
+  induction l as [| [[d daily] v] t IH]; cbn [map parse_all rates_of_raw]; [reflexivity | ].
+  rewrite IH. unfold obs_of_raw, rate_of_raw. destruct daily; cbn [parse_obs o_date o_noon o_daily].
+  - destruct (a_div dec 1%Qc v) as [r | |]; cbn [bind]; try reflexivity;
+      try (destruct (rates_of_raw t); reflexivity).
+  - cbn [bind]. try reflexivity; try (destruct (rates_of_raw t); reflexivity).
+Qed.
+
